@@ -530,6 +530,38 @@ def run(repo, rep):
             n += 1
             rep.check(prov(prs[0].value).endswith('.getvalue()'), 'C18.d', 'PrettyPrinter.pformat:returns-text', f.where, 'returns the text',
                       'PrettyPrinter.pformat returns %s' % prov(prs[0].value))
+    # PrettyPrinter(**settings).pformat(x) is pformat(x, **settings): the pipeline gets the same settings either way - for small values
+    # and for values one past every size constant the entry-point module compares against
+    from engine import thresholds as _th
+    mined_, _b = _th.mine([m], most=100000)
+    vals_ = [7, 79] + [t_ + 1 for t_ in mined_] + [2 * t_ for t_ in mined_]
+    rep.note('PrettyPrinter: size constants of the entry-point module %s; widths tried %s' % ({k_: v_[:1] for k_, v_ in mined_.items()} or 'none', vals_))
+
+    def bound_(entry):
+        out = dict(zip(pts.params, [prov(x) for x in entry[1]]))
+        out.update({k_: prov(v_) for k_, v_ in entry[2].items()})
+        return out
+    for setting in ('width', 'indent', 'max_seq_len', 'depth', 'ribbon_width'):
+        for val in vals_:
+            try:
+                r1 = Recorder(repo)
+                obj = r1.it.construct(TypeV('PrettyPrinter'), [], {setting: Const(val)}, None)
+                p1 = r1.it.explore(pp.methods['pformat'], [obj, Sym('OBJ')], {})
+                mine = [bound_(e) for e in r1.log if e[0] == 'pipeline']
+                r2 = Recorder(repo)
+                p2 = r2.it.explore(m.funcs['pformat'], [Sym('OBJ')], {setting: Const(val)})
+                ref = [bound_(e) for e in r2.log if e[0] == 'pipeline']
+            except (Undecided, PathLimit, KeyError) as e:
+                n += 1
+                rep.undecided('C18.d', 'PrettyPrinter(%s=%d):same-settings-as-pformat' % (setting, val), pp.where, str(e))
+                continue
+            n += 1
+            ok = len(mine) == 1 and len(ref) == 1 and mine[0] == ref[0]
+            rep.check(ok, 'C18.d', 'PrettyPrinter(%s=%d):same-settings-as-pformat' % (setting, val), pp.where,
+                      'the same settings reach the pipeline as for pformat(obj, %s=%d)' % (setting, val),
+                      'PrettyPrinter(%s=%d).pformat(OBJ) prints with %s where pformat(OBJ, %s=%d) uses %s' % (
+                          setting, val, {k_: v_ for k_, v_ in (mine[0] if mine else {}).items() if not ref or ref[0].get(k_) != v_}, setting, val,
+                          {k_: v_ for k_, v_ in (ref[0] if ref else {}).items() if not mine or mine[0].get(k_) != v_}), nontrivial=True)
     # a printer object follows the defaults that are current when it prints (defaults are read at call time, also through the shim)
     rec = Recorder(repo)
     try:
